@@ -201,3 +201,34 @@ func H_C01_string_runes() {
 	}
 	verifReach("end")
 }
+
+// objects with the empty key next to siblings of every kind (both serialisation orders are explored by the
+// map model), at the root and nested
+func H_C01_empty_key_with_siblings() {
+	x := nondetInt()
+	verifAssume(verifAnd(x >= 0, x < 10))
+	var sib any
+	switch nondetIntRange(0, 4) {
+	case 0:
+		sib = x
+	case 1:
+		sib = hAscii(1)
+	case 2:
+		sib = ""
+	case 3:
+		sib = nil
+	default:
+		sib = NewList(x)
+	}
+	k := hAscii(1)
+	o := NewObject("", sib, k, sib)
+	switch nondetIntRange(0, 2) {
+	case 0:
+		hCheckRoundTrip(o, false)
+	case 1:
+		hCheckRoundTrip(NewList(o, 1), false)
+	default:
+		hCheckRoundTrip(NewObject("in", o, "", x), false)
+	}
+	verifReach("end")
+}
